@@ -28,6 +28,7 @@ type replyTpl struct {
 	server byte // server identifier 10.0.0.<server>; 0 = no server identifier option
 	yi     byte // offered / acknowledged address 192.168.0.<yi>
 	inner  int  // for kinds 5..7: the message type of the otherwise valid reply (0 OFFER 1 ACK 2 NAK)
+	extra  byte // an additional option the server chose to send (0 = none): rapid commit, lease times, client id, relay info ...
 }
 
 func (tpl replyTpl) wire4(req *dhcpv4.DHCPv4) []byte {
@@ -39,6 +40,10 @@ func (tpl replyTpl) wire4(req *dhcpv4.DHCPv4) []byte {
 	mods := []dhcpv4.Modifier{dhcpv4.WithMessageType(mt), dhcpv4.WithYourIP(net.IP{192, 168, 0, tpl.yi})}
 	if tpl.server != 0 {
 		mods = append(mods, dhcpv4.WithOption(dhcpv4.OptServerIdentifier(net.IP{10, 0, 0, tpl.server})))
+	}
+	if tpl.extra != 0 {
+		val := map[byte][]byte{80: {}, 51: {0, 0, 14, 16}, 58: {0, 0, 7, 8}, 59: {0, 0, 12, 0}, 61: {1, 2, 0, 0, 0, 0, 1}, 82: {1, 2, 'e', '0'}, 116: {1}, 52: {3}}[tpl.extra]
+		mods = append(mods, dhcpv4.WithOption(dhcpv4.OptGeneric(dhcpv4.GenericOptionCode(tpl.extra), val)))
 	}
 	rep, _ := dhcpv4.NewReplyFromRequest(req, mods...)
 	switch tpl.kind {
@@ -140,7 +145,7 @@ func init() {
 }
 
 func (r *Run) randTpl(phase int) replyTpl {
-	tp := replyTpl{server: byte(r.Pick(0, 1, 1, 2, 3)), yi: byte(1 + r.Rng.Intn(250)), inner: phase - 1}
+	tp := replyTpl{server: byte(r.Pick(0, 1, 1, 2, 3)), yi: byte(1 + r.Rng.Intn(250)), inner: phase - 1, extra: byte(r.Pick(0, 0, 0, 80, 80, 51, 58, 59, 61, 82, 116, 52))}
 	if phase == 1 {
 		tp.kind = r.Pick(0, 0, 0, 1, 2, 3, 4, 5, 6, 7)
 	} else {
@@ -337,15 +342,16 @@ type reply6Tpl struct {
 	kind     int // 0 ADVERTISE 1 REPLY 2 other type 3 wrong xid 4 undecodable 5 ADVERTISE lacking the server id
 	// 6 (second phase only): a late or duplicated ADVERTISE answering the SOLICIT, i.e. carrying the SOLICIT's transaction id
 	withIANA bool
+	extra    int // an additional option the server chose to send (0 = none): rapid commit 14, preference 7, unicast 12, reconfigure accept 20, status 13
 }
 
 func lease6(r *Run) {
 	var ph1, ph2 []reply6Tpl
 	for k := r.Rng.Intn(4); k > 0; k-- {
-		ph1 = append(ph1, reply6Tpl{kind: r.Pick(0, 0, 1, 2, 3, 4, 5), withIANA: r.Rng.Intn(4) != 0})
+		ph1 = append(ph1, reply6Tpl{kind: r.Pick(0, 0, 1, 2, 3, 4, 5), withIANA: r.Rng.Intn(4) != 0, extra: r.Pick(0, 0, 14, 14, 7, 12, 20, 13)})
 	}
 	for k := r.Rng.Intn(4); k > 0; k-- {
-		ph2 = append(ph2, reply6Tpl{kind: r.Pick(1, 1, 0, 2, 3, 4, 6, 6), withIANA: true})
+		ph2 = append(ph2, reply6Tpl{kind: r.Pick(1, 1, 0, 2, 3, 4, 6, 6), withIANA: true, extra: r.Pick(0, 0, 14, 7, 12, 20, 13)})
 	}
 	var solXid, reqXid []byte
 	var w1, w2 [][]byte
@@ -379,6 +385,18 @@ func lease6(r *Run) {
 					ia.Options.Add(&dhcpv6.OptStatusCode{StatusCode: 0, StatusMessage: "ok"})
 				}
 				m.AddOption(ia)
+			}
+			switch tp.extra {
+			case 14:
+				m.AddOption(&dhcpv6.OptionGeneric{OptionCode: dhcpv6.OptionRapidCommit})
+			case 7:
+				m.AddOption(&dhcpv6.OptionGeneric{OptionCode: dhcpv6.OptionPreference, OptionData: []byte{255}})
+			case 12:
+				m.AddOption(&dhcpv6.OptionGeneric{OptionCode: dhcpv6.OptionUnicast, OptionData: net.ParseIP("2001:db8::53")})
+			case 20:
+				m.AddOption(&dhcpv6.OptionGeneric{OptionCode: dhcpv6.OptionReconfAccept})
+			case 13:
+				m.AddOption(&dhcpv6.OptStatusCode{StatusCode: 0, StatusMessage: "fine"})
 			}
 			if tp.kind == 3 {
 				m.TransactionID[0] ^= 0xff
